@@ -112,7 +112,7 @@ fn module_variables(mut args: ArgumentResult, visitor: &mut Visitor) -> SassResu
     ))
 }
 
-fn calc_args(mut args: ArgumentResult, visitor: &mut Visitor) -> SassResult<Value> {
+fn calc_args(mut args: ArgumentResult, _visitor: &mut Visitor) -> SassResult<Value> {
     args.max_args(1)?;
 
     let calc = match args.get_err(0, "calc")? {
@@ -136,8 +136,9 @@ fn calc_args(mut args: ArgumentResult, visitor: &mut Visitor) -> SassResult<Valu
                 CalculationArg::String(s) | CalculationArg::Interpolation(s) => {
                     Value::String(s, QuoteKind::None)
                 }
+                // the text is a SassScript value, so it must not depend on the output style
                 CalculationArg::Operation { .. } => Value::String(
-                    serialize_calculation_arg(&arg, visitor.options, args.span())?,
+                    serialize_calculation_arg(&arg, &Options::default(), args.span())?,
                     QuoteKind::None,
                 ),
             })
